@@ -635,6 +635,13 @@ def check_selection(prog, rep, fs, entry_of, pubname='zone_ids'):
         # ids are matched exactly: a tolerance test on a requested id selects its neighbours too (large codes one apart)
         idvars = set(names) | {n_.target.id for n_ in fv.own_nodes() if isinstance(n_, (ast.For, ast.comprehension)) and
                                isinstance(n_.target, ast.Name) and isinstance(n_.iter, ast.Name) and n_.iter.id in names}
+        # ... and locals computed from them (`requested = np.unique(zone_ids).astype(float)`)
+        for _ in range(3):
+            for n_ in fv.own_nodes():
+                if isinstance(n_, ast.Assign) and len(n_.targets) == 1 and isinstance(n_.targets[0], ast.Name) and n_.targets[0].id not in idvars and \
+                        any(isinstance(x, ast.Name) and x.id in idvars for x in ast.walk(n_.value)) and \
+                        not any(isinstance(x, (ast.ListComp, ast.GeneratorExp, ast.Compare)) for x in ast.walk(n_.value)):
+                    idvars.add(n_.targets[0].id)
         for c_ in calls(fv.node):
             if short(c_) in ('isclose', 'allclose') and any(isinstance(x, ast.Name) and x.id in idvars for a_ in c_.args for x in ast.walk(a_)):
                 n += 1
@@ -1142,6 +1149,60 @@ def check_default_stats(prog, rep, m, entry):
         n += 1
         rep.add('ZT', m, entry, "_DEFAULT_STATS[%r] = %s" % (key, norm(v)), v.lineno, ok,
                 'statistic %r must be computed by the same-named array method on the zone\'s valid values' % key)
+    return n
+
+
+def check_user_reducers(prog, rep, m, entry, pubname='stats', param='stats_funcs'):
+    """ZT-user: a reducer the caller supplies (a dict name -> function) is the one that is applied: the table of built-in
+    statistics is consulted only for NAMES given as a list.  A lookup `_DEFAULT_STATS.get(name, ...)` / `_DEFAULT_STATS[name]`
+    that runs when the caller's argument is a dict replaces `{'std': my_sample_std}` by the built-in population `std`.
+    Decided on the public function (helpers in place): every lookup into the table keyed by something that comes from the
+    caller's argument sits on a path where that argument is known to be a list - in the body of `if isinstance(arg, list)`
+    or in the `else` of `if isinstance(arg, dict)` - or after the dict case has returned."""
+    pub = m.funcs.get(pubname)
+    if pub is None or param not in pub.params:
+        return 0
+    fv = _view(prog, pub)
+    from .astutil import parent_map
+    pm = parent_map(fv.node)
+    lookups = []
+    for n_ in fv.own_nodes():
+        tbl = None
+        if isinstance(n_, ast.Subscript) and isinstance(n_.value, ast.Name) and n_.value.id == '_DEFAULT_STATS' and isinstance(n_.ctx, ast.Load):
+            tbl = n_
+        elif isinstance(n_, ast.Call) and isinstance(n_.func, ast.Attribute) and n_.func.attr == 'get' and isinstance(n_.func.value, ast.Name) and \
+                n_.func.value.id == '_DEFAULT_STATS':
+            tbl = n_
+        if tbl is not None:
+            lookups.append(tbl)
+
+    def is_inst(test, kinds):
+        return isinstance(test, ast.Call) and isinstance(test.func, ast.Name) and test.func.id == 'isinstance' and len(test.args) == 2 and \
+            isinstance(test.args[0], ast.Name) and test.args[0].id == param and norm(test.args[1]) in kinds
+    bad = []
+    for lk in lookups:
+        guarded = False
+        cur = lk
+        while cur in pm:
+            par = pm[cur]
+            if isinstance(par, ast.If):
+                inbody = any(cur is b_ or any(cur is x for x in ast.walk(b_)) for b_ in par.body)
+                if inbody and is_inst(par.test, ('list', '(list, tuple)', '(tuple, list)', 'tuple')):
+                    guarded = True
+                if not inbody and cur is not par.test and is_inst(par.test, ('dict',)):
+                    guarded = True
+            cur = par
+        if not guarded:
+            bad.append(lk)
+    n = 0
+    for lk in bad:
+        n += 1
+        rep.add('ZT-user', fv, entry, norm(lk)[:100], lk.lineno, False,
+                'the table of built-in statistics is consulted although the caller may have passed a dict of his own functions: a '
+                'reducer given under a built-in name (`{"std": sample_std}`) is replaced by the built-in one')
+    if lookups and not bad:
+        n += 1
+        rep.add('ZT-user', fv, entry, 'built-in statistics looked up for names given as a list only (%d lookups)' % len(lookups), fv.node.lineno, True)
     return n
 
 
